@@ -416,6 +416,8 @@ def interpret(events):
                 members["__all__"] = {"op": "bind", "name": "__all__", "kind": "attribute", "lineno": e["lineno"], "endlineno": e["lineno"], "guard": e["guard"], "labels": {"module-attribute"}, "doc": e.get("doc"), "is_all": True}
             continue
         n = e["name"]
+        if e.get("instance") and n in members and "property" in members[n].get("labels", ()):
+            continue  # `self.x = ...` in __init__ goes through the property x of the class (its setter): the property is what the name binds
         if e["kind"] == "attribute" and not e.get("is_def") and n in members and e["cond"] in ("if", "except"):
             if members[n]["kind"] != "attribute":
                 either.add(n)  # unspecified by the property
